@@ -166,3 +166,40 @@ def ref_pt(cfg, P):
     if P is None:
         return None
     return (cfg.lib(P[0]), cfg.lib(P[1]))
+
+
+# --------------------------------------------------------------------------------------------
+# long histories: anchors evaluated again after many distinct other inputs
+def checkpoints(n):
+    """{1, 2, 3, 4, 6, 8, 12, 16, ...} up to n, and n"""
+    out, c = set(), 1
+    while c <= n:
+        out |= {c, c + c // 2}
+        c *= 2
+    out.add(n)
+    return {x for x in out if x <= n}
+
+
+def sweep(call, anchors, distinct, n, expect=None):
+    """History: call(a) for every anchor; then call(d) for n pairwise distinct further inputs d; after 1, 2, 3,
+    4, 6, 8, 12, ... of them every anchor again.  `expect(a)` gives the required outcome (default: the
+    outcome of the first call).  Returns None or (after, anchor index, required, observed): a bounded
+    table of recent results must not serve a stale or displaced entry."""
+    first = []
+    for i, a_ in enumerate(anchors):
+        o = call(a_)
+        want = expect(a_) if expect is not None else o
+        if o != want:
+            return (0, i, want, o)
+        first.append(want)
+    cps = checkpoints(n)
+    for j, d in enumerate(distinct, 1):
+        if j > n:
+            break
+        call(d)
+        if j in cps:
+            for i, a_ in enumerate(anchors):
+                o = call(a_)
+                if o != first[i]:
+                    return (j, i, first[i], o)
+    return None
